@@ -1259,7 +1259,7 @@ theorem step_ok (s s' : St) (e : Ev) (ha : AllRec s) (hs : step s e = some s') :
         · cases hs
       · cases hs
     · cases hs
-  | quiesce p r =>
+  | quiesce p r l =>
     simp only [step] at hs
     split at hs
     · simp at hs; subst hs; exact ⟨ha, Steps.refl _⟩
